@@ -43,7 +43,7 @@ func runC05(c *Ctx) {
 		}
 	}
 	var idi IDInfo
-	var spec *tls.ClientHelloSpec
+	var newSpec func() *tls.ClientHelloSpec
 	kind := "id"
 	switch k := ch.Pick(10, "kind"); {
 	case k < 6:
@@ -51,13 +51,18 @@ func runC05(c *Ctx) {
 	case k < 8:
 		kind = "custom"
 		for try := 0; try < 20; try++ {
-			spec, _ = GenSpec(ch, true)
-			if hasBoringPadding(spec) {
+			newSpec, _ = GenSpecFactory(ch, true)
+			if hasBoringPadding(newSpec()) {
 				break
 			}
 		}
-		if !hasBoringPadding(spec) {
-			spec.Extensions = append(spec.Extensions, &tls.UtlsPaddingExtension{GetPaddingLen: tls.BoringPaddingStyle})
+		if !hasBoringPadding(newSpec()) {
+			inner := newSpec
+			newSpec = func() *tls.ClientHelloSpec {
+				sp := inner()
+				sp.Extensions = append(sp.Extensions, &tls.UtlsPaddingExtension{GetPaddingLen: tls.BoringPaddingStyle})
+				return sp
+			}
 		}
 		idi = IDInfo{"Custom", tls.HelloCustom}
 	default:
@@ -105,7 +110,7 @@ func runC05(c *Ctx) {
 	var capRaw []byte
 	capPad := 0
 	for i := 0; i < nconn; i++ {
-		sp := &ConnSpec{Name: fmt.Sprintf("c%d", i), ID: idi.ID, Spec: spec, CCfg: mk(sn), Peer: peer, SCfg: scfg, StdCfg: stdcfg,
+		sp := &ConnSpec{Name: fmt.Sprintf("c%d", i), ID: idi.ID, Spec: freshSpec(newSpec), CCfg: mk(sn), Peer: peer, SCfg: scfg, StdCfg: stdcfg,
 			Payload: [][]byte{[]byte("x")}, Setup: func(l *simnet.Link) {}}
 		o := RunConn(c, w, sp)
 		obs := ObserveHellos(o.Link)
